@@ -44,6 +44,8 @@ var suites = map[string]func(o corrOpts) *res.Summary{
 	"gram":    corrGram,
 	"progdir": corrProgDir,
 	"prog":    corrProg,
+	"layout":  corrLayout,
+	"ignore":  corrIgnore,
 }
 
 func runCorr(args []string) int {
